@@ -8,6 +8,35 @@ pub struct C05;
 
 fn benign_line(rng: &mut Rng, next: &SentHdr, prev: Option<&SentHdr>, pcfg: &PayloadCfg) -> (Vec<u8>, bool, Vec<Fault>) {
     let addr: [u8; 5] = *rng.pick(&[*b"AIVDM", *b"AIVDO", *b"BSVDM", *b"ABVDM"]);
+    if rng.ratio(1, 4) {
+        // a composed candidate (see `composed_line`); if the real parser takes it for a
+        // fragment the scenario is abandoned by the premise check, otherwise it is benign
+        let base = match prev {
+            Some(p) => (p.n, p.k, p.id),
+            None => (next.n, 0, next.id),
+        };
+        let line = composed_line(rng, base);
+        // not benign by construction: an opener (it restarts the group), and a line that carries
+        // the group's id and the very number expected next - that *is* the group's next fragment,
+        // whatever count it announces, and when its payload then fails to decode it comes back
+        // as an error although it has legitimately consumed the group
+        let num = |f: Option<&[u8]>| f.and_then(|b| std::str::from_utf8(b).ok()).and_then(|t| t.parse::<u32>().ok());
+        let excluded = match lex(&line).filter(|lx| lx.fields.len() == 7) {
+            Some(lx) => {
+                let n = num(lx.field(&line, 1));
+                let k = num(lx.field(&line, 2));
+                let idf = lx.field(&line, 3).unwrap_or(b"");
+                let id = if idf.is_empty() { Some(None) } else { num(Some(idf)).map(|v| Some(v as u8)) };
+                let opener = k == Some(1) && n != Some(1);
+                let continuation = k == Some(next.k as u32) && id == Some(next.id);
+                opener || continuation
+            }
+            None => false,
+        };
+        if !excluded {
+            return (line, rng.ratio(1, 2), vec![Fault::RewriteHeader]);
+        }
+    }
     match rng.below(8) {
         0 | 1 => {
             // unfragmented sentence from another station; sometimes with the very same id
@@ -234,9 +263,16 @@ impl Prop for C05 {
     }
 
     fn judge(&self, sc: &Scenario, mut st: Option<&mut Stats>) -> Option<Violation> {
+        ABANDONED.with(|a| a.set(false));
         let v = judge_build(sc, Build::Std, &mut st).or_else(|| judge_build(sc, Build::Alloc, &mut None));
         if v.is_some() {
             return v;
+        }
+        // a scenario whose premise failed on the std build (an inserted line was taken for a
+        // fragment) is no scenario for the no-alloc build either, even if that build happens to
+        // reject the line - for capacity, which is not one of the benign kinds
+        if ABANDONED.with(|a| a.get()) {
+            return None;
         }
         // the no-alloc build too, whenever the heal group stays within its fixed capacities
         // (384 payload bytes per line and per group; 119 bytes of binary data, 20 characters
@@ -532,10 +568,16 @@ fn judge_build(sc: &Scenario, build: Build, st: &mut Option<&mut Stats>) -> Opti
         },
     );
     if abandoned {
+        ABANDONED.with(|a| a.set(true));
         if let Some(st) = st_ref.borrow_mut().as_deref_mut() {
             st.premise_failed += 1;
         }
         return None;
     }
     result
+}
+
+thread_local! {
+    /// did the last `judge_build` of this thread abandon its scenario (premise failed)?
+    static ABANDONED: std::cell::Cell<bool> = const { std::cell::Cell::new(false) };
 }
